@@ -461,5 +461,5 @@ def main(rep, tier):
     _c.witnesses(rep, "C09", f)
     return rep.finish(
         "Delegation, copy/consume pairing, 'no early exit between a productive parse and returning its result', writers and guards of the "
-        "writeable flag, construction sites of StreamWriter.",
+        "writeable flag, construction sites of StreamWriter, transport byte counts committed to the parser before a poll function returns.",
         not_decided="the exact bytes delivered for every poll sequence and EOF persistence (the stream parser's behaviour: C02/C18)")
